@@ -593,7 +593,9 @@ pub fn check(tier: Tier) -> i32 {
             agg.findings.insert(k, f);
         }
     }
-    let st = selftest();
+    // the self-test runs the library too: on a tree that panics there it counts as failed (a verdict, if there is one,
+    // takes precedence over it)
+    let st = catch(|| selftest()).unwrap_or((1, 0));
     super::c01_c02::cleanup_scratch();
     finish(
         RunInfo {
